@@ -96,6 +96,10 @@ def main():
             if os.path.exists(os.path.join(ROOT, 'seeded', name, 'patch.diff')):
                 res[name] = run(name, sys.argv[2:])
         print('\nSUMMARY'); [print(' ', k, v) for k, v in res.items()]
+        # record what the checks reported (exit code, number of VIOLATION lines) for DESIGN.md
+        rec = {k: {p: {'exit': v[0], 'violation_lines': v[1]} for p, v in r.items() if isinstance(v, tuple)} for k, r in res.items()}
+        json.dump({'base_commit': sh(['git', '-C', '/repo', 'rev-parse', '--short', 'HEAD']).stdout.strip(), 'tier': 'quick', 'results': rec},
+                  open(os.path.join(ROOT, 'seeded', 'DETECTION.json'), 'w'), indent=1)
         return 0
 
 
